@@ -14,7 +14,7 @@ MODELS = ["A-rng: ChaCha8Rng::seed_from_u64 / Rng::gen / gen_range / SliceRandom
 ASSUMPTIONS = ["registries: corpus registries (compact wraps unsigned integers or single-field wrappers of them) and retargeted/self-referential variants; every id",
                "structural conformance (oracles/value.py) is the harness's model of what scale-encode accepts; a candidate is reported only after the real encode_as_type/decode_as_type failed on the concrete registry for some seed in 0..255",
                "the real encoder/decoder are exercised in replay only (round trip, all input consumed, equal value)"]
-BOUNDS = {"quick": {"array lengths": "the corpus lengths plus 0, 1, 255, 256, 257 (u8 elements) and 65536 (unit elements); thorough adds 2, 127, 128, 511, 512, 32767, 32768, 65535, 65537, 131072", "ids": "every id of the corpus registries", "paths per (registry, id)": "all draw sequences, capped at 150 (cap hits are listed as truncated)", "validation seeds": "3 per sampled id"}, "thorough": {"paths per (registry, id)": "capped at 600"}}
+BOUNDS = {"quick": {"array lengths": "the corpus lengths plus 0, 1, 255, 256, 257 (u8 elements) and 65536 (unit elements); thorough adds 2, 127, 128, 511, 512, 32767, 32768, 65535, 65537, 131072", "ids": "every id of the corpus registries and of a hand-built registry of enums with sparse / descending / high codec indices", "paths per (registry, id)": "all draw sequences, capped at 150 (cap hits are listed as truncated)", "validation seeds": "3 per sampled id"}, "thorough": {"paths per (registry, id)": "capped at 600"}}
 OUTSIDE = ["256-bit integers only structurally", "seeds: every draw is an arbitrary value of its type, so all seeds are covered up to the assumption A-rng"]
 GLOBAL_WITNESSES = ("value", "error")
 
@@ -92,8 +92,19 @@ def boundary_registry(n):
     below a struct and a Vec"""
     el = 0 if n <= 600 else 1
     return [prim("U8"), tup([]), arr(n, el), comp(["m", "Holds"], [fld("a", 2, "[T; N]"), fld("b", 0, "u8")]), seq(2)]
+def sparse_registry():
+    """enums whose codec indices are not 0..n-1 (`#[codec(index = N)]`): position and index must not be confused"""
+    return [prim("U8"),
+            enum(["m", "Sparse"], [var("A", [], 0), var("B", [fld(None, 0, "u8")], 4), var("C", [fld("x", 0, "u8")], 9)]),
+            enum(["m", "One"], [var("Only", [fld("x", 0, "u8")], 7)]),
+            enum(["m", "Desc"], [var("Z", [], 3), var("Y", [fld(None, 0, "u8")], 1)]),
+            enum(["m", "High"], [var("P", [], 254), var("Q", [], 255), var("R", [], 1)]),
+            comp(["m", "Holds"], [fld("a", 1, "Sparse"), fld("b", 2, "One"), fld("c", 3, "Desc"), fld("d", 4, "High")])]
 def families(eng, tier, seed):
     C = corpus(); fams = []; limit = 150 if tier == "quick" else 600; rnd = random.Random(seed)
+    sp = sparse_registry()
+    for i in range(1, len(sp)): fams.append(make_family("sparse-index-%d" % i, sp, i, limit))
+    fams.append(exact_family("exact-sparse-index", sp, list(range(1, len(sp))), [seed * 3 + 1, 42, 7, 8, 9]))
     # array lengths at the integer-width boundaries (a length is a u32 in the registry; casts/truncations show here)
     for n in BOUNDARY_LENS[tier]:
         r = boundary_registry(n)
